@@ -167,71 +167,96 @@ Definition sys_fresh (relaxedB : bool) : sys :=
         (mkInner (set_relaxed session_new relaxedB) 0 [] 0) [] [].
 
 (** the system right after a handshake that agreed on segment size [m] and
-    window [w]: the responder B has sent its response (its sequence number 0);
+    window [w]: the responder B has sent its response (its sequence number 0),
+    the initiator A has taken it in and owes the acknowledgement for it;
     [relB] = B runs the relaxed MTU negotiation (only read during a handshake) *)
 Definition sys_established (c : cfg) (ver m w : N) (relB : bool) : sys :=
-  mkSys (mkInner (mkSess true (addrB c) ver m w false (mkRW [] 0 w 0 0 0) (mkSW w w 255) false) 0 [] 0)
+  mkSys (mkInner (mkSess true (addrB c) ver m w false (mkRW [] 0 (w - 1) 1 0 0) (mkSW w w 255) false) 0 [] 0)
         (mkInner (mkSess false (addrA c) ver m w false (mkRW [] 0 w 0 255 0) (mkSW w (w - 1) 0) relB) 0 [] 0)
         [] [].
 
 (** * Monitor for two well-behaved ends
 
     State: the messages accepted from each application and not delivered yet,
-    and the number of data segments in flight per direction.  The property on
-    a trace: nothing panics; nothing well-formed is refused; what B's
-    application fetches is, in order, exactly what A's application handed in
-    (and vice versa); and after every step, per direction, segments in flight
-    plus segments received and not acknowledged never exceed what the sender
-    has outstanding, which never exceeds the window, and the segments in flight
-    never exceed the receiver's free window. *)
-Record pstate := mkPS { w_ab : list bytes; w_ba : list bytes; f_ab : N; f_ba : N }.
-Definition ps_init : pstate := mkPS [] [] 0 0.
+    the number of data segments in flight per direction, and per direction what
+    the receiver owes: the segments it has taken in since the last ACK it put
+    on the wire.  The property on a trace: nothing panics; nothing well-formed
+    is refused; what B's application fetches is, in order, exactly what A's
+    application handed in (and vice versa); and after every step, per direction,
+    (a) segments in flight plus segments received and not acknowledged never
+    exceed what the sender has outstanding, which never exceeds the window, and
+    the segments in flight never exceed the receiver's free window;
+    (b) NO LOST ACK: the receiver's [ack_level] is exactly what it owes - it
+    never forgets a segment it has not acknowledged on the wire. *)
+Record pstate := mkPS {
+  w_ab : list bytes; w_ba : list bytes; f_ab : N; f_ba : N; o_ab : N; o_ba : N }.
+Definition ps_init : pstate := mkPS [] [] 0 0 0 0.
+(** after the handshake the initiator A owes one acknowledgement (the response) *)
+Definition ps_established : pstate := mkPS [] [] 0 0 0 1.
 
 Definition is_data_seg (b : bytes) : bool :=
   match b with x :: _ => negb (N.testbit x 6) | [] => false end.
+
+(** the segment carries the ACK flag (read off the wire) *)
+Definition seg_has_ack (b : bytes) : bool :=
+  match hdr_decode b with Ok (h, _) => negb (fH h) && fA h | _ => false end.
 
 Definition win_ok (flight : N) (snd_ rcv : snap) : bool :=
   (flight + n_rack rcv <=? n_swin snd_ - n_slevel snd_)
   && (n_slevel snd_ <=? n_swin snd_)
   && ((n_swin rcv =? 0) || (flight <=? n_rlevel rcv)).
 
+(** x has put segment [b] on the wire *)
+Definition ps_emit (p : pstate) (x : side) (b : bytes) : pstate :=
+  let d := if is_data_seg b then 1 else 0 in
+  match x with
+  | SA => mkPS (w_ab p) (w_ba p) (f_ab p + d) (f_ba p) (o_ab p) (if seg_has_ack b then 0 else o_ba p)
+  | SB => mkPS (w_ab p) (w_ba p) (f_ab p) (f_ba p + d) (if seg_has_ack b then 0 else o_ab p) (o_ba p)
+  end.
+
+(** x has taken in the oldest packet in flight towards it; [data] = it was a
+    data segment (a handshake response makes the initiator owe one ACK, a
+    handshake request starts the responder afresh) *)
+Definition ps_deliver (p : pstate) (x : side) (data : bool) : pstate :=
+  match x with
+  | SB => if data then mkPS (w_ab p) (w_ba p) (f_ab p - 1) (f_ba p) (o_ab p + 1) (o_ba p)
+          else mkPS (w_ab p) (w_ba p) (f_ab p) (f_ba p) 0 (o_ba p)
+  | SA => if data then mkPS (w_ab p) (w_ba p) (f_ab p) (f_ba p - 1) (o_ab p) (o_ba p + 1)
+          else mkPS (w_ab p) (w_ba p) (f_ab p) (f_ba p) (o_ab p) 1
+  end.
+
 Definition pmon_step (p : pstate) (o : sop) (r : out) (head_is_data : bool) : option pstate :=
   if is_bad r then None else
   match o, r with
   | SSubmit x d, RTrue =>
       Some (match x with
-            | SA => mkPS (w_ab p ++ [d]) (w_ba p) (f_ab p) (f_ba p)
-            | SB => mkPS (w_ab p) (w_ba p ++ [d]) (f_ab p) (f_ba p) end)
+            | SA => mkPS (w_ab p ++ [d]) (w_ba p) (f_ab p) (f_ba p) (o_ab p) (o_ba p)
+            | SB => mkPS (w_ab p) (w_ba p ++ [d]) (f_ab p) (f_ba p) (o_ab p) (o_ba p) end)
   | SSubmit x d, RNone => Some p
   | SSubmit x d, RErr _ => if (blen d =? 0) || (MAX_TX <? blen d) then Some p else None
-  | SPoll x _, RBytes b =>
-      if is_data_seg b then
-        Some (match x with
-              | SA => mkPS (w_ab p) (w_ba p) (f_ab p + 1) (f_ba p)
-              | SB => mkPS (w_ab p) (w_ba p) (f_ab p) (f_ba p + 1) end)
-      else Some p
-  | SDeliver x, RUnit =>
-      if head_is_data then
-        Some (match x with
-              | SB => mkPS (w_ab p) (w_ba p) (f_ab p - 1) (f_ba p)
-              | SA => mkPS (w_ab p) (w_ba p) (f_ab p) (f_ba p - 1) end)
-      else Some p
+  | SPoll x _, RBytes b => Some (match b with [] => p | _ :: _ => ps_emit p x b end)
+  | SDeliver x, RUnit => Some (ps_deliver p x head_is_data)
   | SDeliver x, RNone => Some p
   | SFetch x, RBytes m =>
       match x with
       | SB => match w_ab p with
-              | d :: t => if bytes_eqb m d then Some (mkPS t (w_ba p) (f_ab p) (f_ba p)) else None
+              | d :: t => if bytes_eqb m d then Some (mkPS t (w_ba p) (f_ab p) (f_ba p) (o_ab p) (o_ba p)) else None
               | [] => None end
       | SA => match w_ba p with
-              | d :: t => if bytes_eqb m d then Some (mkPS (w_ab p) t (f_ab p) (f_ba p)) else None
+              | d :: t => if bytes_eqb m d then Some (mkPS (w_ab p) t (f_ab p) (f_ba p) (o_ab p) (o_ba p)) else None
               | [] => None end
       end
   | SFetch x, RNone => Some p
   | _, _ => None
   end.
 
-(** [chd] mirrors the channels only to know whether the segment that arrives
-    is a data segment (handshake packets do not count against the window). *)
+(** the per-state clauses: window accounting both ways, and no lost ACK *)
+Definition ps_ok (p : pstate) (sa sb : snap) : bool :=
+  win_ok (f_ab p) sa sb && win_ok (f_ba p) sb sa
+  && (n_rack sb =? o_ab p) && (n_rack sa =? o_ba p).
+
+(** [cab] / [cba] mirror the channels only to know whether the packet that
+    arrives is a data segment (handshake packets do not count against the window). *)
 Fixpoint pmon_run (p : pstate) (cab cba : list bool) (ops : list sop)
     (rs : list (out * snap * snap)) : bool :=
   match ops, rs with
@@ -256,15 +281,17 @@ Fixpoint pmon_run (p : pstate) (cab cba : list bool) (ops : list sop)
         | _, _ => cba
         end in
       match pmon_step p o r hd with
-      | Some p' =>
-          win_ok (f_ab p') sa sb && win_ok (f_ba p') sb sa && pmon_run p' cab' cba' ops' rs'
+      | Some p' => ps_ok p' sa sb && pmon_run p' cab' cba' ops' rs'
       | None => false
       end
   | _, _ => false
   end.
 
+(** from two fresh ends / from the state right after the handshake *)
 Definition mon_pair (ops : list sop) (rs : list (out * snap * snap)) : bool :=
   pmon_run ps_init [] [] ops rs.
+Definition mon_pair_est (ops : list sop) (rs : list (out * snap * snap)) : bool :=
+  pmon_run ps_established [] [] ops rs.
 
 (** * Reading a trace: what was handed in, what came out *)
 
